@@ -496,6 +496,8 @@ def check_wire_order(pm: ProviderModel, rep):
 def run(repo, rep):
     from ..pitfalls import memo_rule as _memo_rule
     _memo_rule(repo, rep, 'C05', 'C05.Z1')
+    from ..pitfalls import log_rule as _log_rule
+    _log_rule(repo, rep, 'C05', 'C05.Z2')
     model = FsmModel(repo)
     pm = ProviderModel(repo, model)
     rep.trust('PS3.8 Table 9-10 event rows and state definitions as transcribed in pnd_static/oracles/ps3_8.py')
